@@ -163,6 +163,9 @@ def r4_skip_table(ctx):
             for e in body:
                 if e[0] == "switch" and e[2][0] == "call" and name_is(e[2][2], "eq", "ne"):
                     same = name_is(e[2][2], "eq") == (e[3] != 0)
+                    # what is compared must be the element *name* of the event (BytesStart derefs to the whole tag content)
+                    if not has_subterm(e[2], lambda s2: call_is(s2, "BytesStart::name", "BytesEnd::name") and has_subterm(s2, lambda s3: call_is(s3, "next", "pop_front", "next_impl"))):
+                        same = "not-a-name-comparison"
             d0 = decision_on(body, lambda t: t[0] == "bin" and t[1] == "Eq" and t[2][0] == "phi" and strip_wrappers(t[3])[0] == "c" and strip_wrappers(t[3])[2] == 0)
             skipped = len([c for c in calls(body) if name_is(c[2], "skip_event")])
             r = ret_of(p)
@@ -209,6 +212,8 @@ def r6_read_to_end(ctx):
             for e in p:
                 if e[0] == "switch" and e[2][0] == "call" and name_is(e[2][2], "eq", "ne"):
                     same = name_is(e[2][2], "eq") == (e[3] != 0)
+                    if not has_subterm(e[2], lambda s2: call_is(s2, "BytesStart::name", "BytesEnd::name") and has_subterm(s2, lambda s3: call_is(s3, "next", "pop_front", "next_impl"))):
+                        same = "not-a-name-comparison"
             d0 = decision_on(p, lambda t: t[0] == "bin" and t[1] == "Eq" and strip_wrappers(t[2])[0] == "phi" and strip_wrappers(t[3]) == ("c", strip_wrappers(t[3])[1], 0))
             if ends(p) == "loop":
                 cc = carried_counter(p[-1])
